@@ -17,6 +17,7 @@ import (
 	"strings"
 	"sync"
 	"sync/atomic"
+	"syscall"
 	"time"
 
 	"github.com/redis/rueidis/internal/util"
@@ -53,6 +54,12 @@ var coarseSitesExtra atomic.Pointer[map[string]bool]
 
 // fineSites is enabled by Engine B scenarios.
 var fineSites atomic.Bool
+
+// yieldFullIdentity makes yield identities carry the complete command and the deadline of the caller's context
+// instead of the first three arguments (48 bytes). Scenarios in which one task has several goroutines sending the
+// same command with different keys (rueidislock's per-key monitors) need it: goroutines with equal identities must
+// be interchangeable. Off by default; reset at the start of every run.
+var yieldFullIdentity atomic.Bool
 
 // randState drives the util random seam: value = hash(seed, counter)
 var randState struct {
@@ -162,6 +169,13 @@ func installHooks() {
 			// The clean-up loop of a dead pipe spins with Gosched while callers are still registered. A spinning
 			// goroutine is never durably blocked and would freeze the fake clock, so under the simulator it polls
 			// once per fake millisecond instead.
+			if b := cleanupSpinBudget.Load(); b > 0 && cleanupSpins(obj, b) {
+				// opt-in (VerifCleanupSpinBudget): the first spins of a pipe are real ones. What the loop usually waits for
+				// is another goroutine of the same step that is runnable right now (the writer loop closing p.close, a
+				// caller that has its error and is about to deregister); whether the loop gets there first is decided by
+				// the Go runtime, and a fake millisecond spent on it makes that race visible in the event log.
+				return
+			}
 			time.Sleep(time.Millisecond)
 			return
 		}
@@ -236,6 +250,51 @@ func installHooks() {
 	}
 }
 
+// cleanupSpinBudget > 0 lets every dead pipe spin that many times for real before it starts polling in fake time.
+var cleanupSpinBudget atomic.Int32
+var cleanupSpinCounts atomic.Pointer[sync.Map] // pipe -> *spinState, replaced at the start of every run
+
+type spinState struct {
+	n     atomic.Int32
+	since atomic.Int64 // real (not simulated) time of the first spin, ns
+}
+
+// realNanos reads the machine's clock: package time is simulated inside a bubble, the system call is not.
+func realNanos() int64 {
+	var tv syscall.Timeval
+	if syscall.Gettimeofday(&tv) != nil {
+		return 0
+	}
+	return tv.Sec*1e9 + tv.Usec*1e3
+}
+
+// cleanupSpins reports whether the clean-up loop of pipe obj should go on spinning for real: until it has spun
+// budget times AND 150 ms of real time have passed (on a loaded machine the goroutine it waits for may not get a
+// processor for a while).
+func cleanupSpins(obj any, budget int32) bool {
+	m := cleanupSpinCounts.Load()
+	if m == nil {
+		return false
+	}
+	c, _ := m.LoadOrStore(obj, new(spinState))
+	st := c.(*spinState)
+	n := st.n.Add(1)
+	if n == 1 {
+		st.since.Store(realNanos())
+	}
+	if n <= budget {
+		return true
+	}
+	if n&1023 == 0 || n == budget+1 {
+		if t0 := st.since.Load(); t0 != 0 && realNanos()-t0 < 150e6 {
+			return true
+		}
+		st.since.Store(0) // budget used up: this pipe polls in simulated time from now on
+		return false
+	}
+	return st.since.Load() != 0
+}
+
 // goroutine identities for lock waits: task goroutines register themselves; rueidis' own goroutines
 // are recognised by their role on the stack.
 var goNames sync.Map // goid -> name
@@ -298,12 +357,20 @@ func connIDOf(p *pipe) string {
 	return "c?"
 }
 
+// bgNamer, when set by a scenario, refines the identity of goroutines that carry no task id (rueidis' own
+// goroutines, e.g. the sentinel client's subscription goroutine versus its refresh goroutine, which reach the same
+// yield site on the same wire in the same step). nil (the default) leaves every identity as it was.
+var bgNamer atomic.Pointer[func() string]
+
 func yieldIdentity(ctx context.Context, site string, obj any, cmd []string) string {
 	who := sched.TaskID(ctx)
 	if who == "" || (!richIdent.Load() && (strings.HasPrefix(site, "fb.") || strings.HasPrefix(site, "ring."))) {
 		// (the queue hand-off seams carry the caller's context since hook commit c97e4fd; without richIdent they keep
 		// their historical identity so that event-log hashes and committed replay plans stay valid)
 		who = "bg"
+		if f := bgNamer.Load(); f != nil {
+			who = (*f)()
+		}
 	}
 	where := ""
 	switch o := obj.(type) {
@@ -342,6 +409,15 @@ func yieldIdentity(ctx context.Context, site string, obj any, cmd []string) stri
 	}
 
 	c := ""
+	if yieldFullIdentity.Load() {
+		c = fmt.Sprintf("%q", cmd)
+		if ctx != nil {
+			if dl, ok := ctx.Deadline(); ok {
+				c += fmt.Sprintf("|dl=%d", dl.UnixNano())
+			}
+		}
+		return who + "|" + site + "|" + where + "|" + c
+	}
 	if len(cmd) > 0 {
 		n := len(cmd)
 		if n > 3 {
@@ -404,9 +480,16 @@ func VerifSetSim(s *sched.Sim, seed uint64) {
 		queueTypeFromEnv = ""
 		muxRegReset(0)
 		richIdent.Store(false)
+		yieldFullIdentity.Store(false)
+		cleanupSpinBudget.Store(0)
+		cleanupSpinCounts.Store(&sync.Map{})
 	}
 	curSim.Store(s)
 }
+
+// VerifYieldFullIdentity makes yield identities carry the whole command and the context deadline (see
+// yieldFullIdentity). Call it after VerifSetSim; it lasts for the current run.
+func VerifYieldFullIdentity(on bool) { yieldFullIdentity.Store(on) }
 
 // VerifNameGoroutine registers the calling goroutine under a stable name (lock-wait identities).
 func VerifNameGoroutine(name string) { nameGoroutine(name) }
@@ -430,6 +513,13 @@ func VerifPinAllParallelism(n int) {
 
 // VerifRichIdentities turns on connection- and goroutine-qualified identities at the queue hand-off yield sites.
 func VerifRichIdentities(on bool) { richIdent.Store(on) }
+// VerifCleanupSpinBudget lets the clean-up loop of every dead pipe spin n times for real (as it does outside the
+// simulator) before it falls back to polling once per fake millisecond. Call after VerifSetSim; 0 = off (default).
+func VerifCleanupSpinBudget(n int) { cleanupSpinBudget.Store(int32(n)) }
+
+// VerifQueueType selects the command queue of pipes created from now on in this run ("" = ring, "flowbuffer").
+// Call after VerifSetSim (which resets it to the default).
+func VerifQueueType(t string) { queueTypeFromEnv = t }
 
 // VerifCoarseExtra parks additional yield sites (nil = default set).
 func VerifCoarseExtra(m map[string]bool) {
